@@ -192,7 +192,22 @@ func ruleDepthGuard(c *Ctx) {
 				continue
 			}
 		}
-		res := f.CheckGate(f.Entry(), targets, Guard{ID: "depth", Doc: "nesting depth exhausted => error", Alts: [][]string{{"param:maxDepth"}}}, nil)
+		// the depth parameter: the one of type int
+		depthSym := ""
+		pi := 0
+		for _, fl := range fd.Decl.Type.Params.List {
+			for range fl.Names {
+				if b, ok := f.Info.TypeOf(fl.Type).Underlying().(*types.Basic); ok && b.Kind() == types.Int {
+					depthSym = fmt.Sprintf("param#%d", pi)
+				}
+				pi++
+			}
+		}
+		if depthSym == "" {
+			c.Lost("depth."+g+".param", g+" has no int parameter carrying the remaining depth")
+			continue
+		}
+		res := f.CheckGate(f.Entry(), targets, Guard{ID: "depth", Doc: "nesting depth exhausted => error", Alts: [][]string{{depthSym}}}, nil)
 		if res.OK {
 			c.OK("depth."+g+".tested", c.P.Pos(fd.Decl.Pos()), g+" tests its depth parameter before producing a condition")
 		} else {
@@ -207,14 +222,8 @@ func ruleDepthGuard(c *Ctx) {
 			continue
 		}
 		var own types.Object
-		if fd.Decl.Type.Params != nil {
-			for _, fl := range fd.Decl.Type.Params.List {
-				for _, nm := range fl.Names {
-					if nm.Name == "maxDepth" {
-						own = pk.TypesInfo.Defs[nm]
-					}
-				}
-			}
+		if oi := depthParamIndex(fd.Obj.Type().(*types.Signature)); oi >= 0 {
+			own = fd.Obj.Type().(*types.Signature).Params().At(oi)
 		}
 		idx := 0
 		ast.Inspect(fd.Decl.Body, func(x ast.Node) bool {
@@ -233,12 +242,7 @@ func ruleDepthGuard(c *Ctx) {
 				return true
 			}
 			sig := callee.Type().(*types.Signature)
-			di := -1
-			for i := 0; i < sig.Params().Len(); i++ {
-				if sig.Params().At(i).Name() == "maxDepth" {
-					di = i
-				}
-			}
+			di := depthParamIndex(sig)
 			if di < 0 || di >= len(call.Args) {
 				return true
 			}
@@ -285,7 +289,7 @@ func ruleCondContext(c *Ctx) {
 	runGates(c, []GateSpec{{
 		ID: "CheckHashedWitness.caller-shortcut", Fn: [3]string{"pkg/core/interop/runtime", "", "CheckHashedWitness"}, Target: "return-true",
 		Guards: []Guard{
-			{ID: "caller-is-account", Doc: "the calling script hash equals the checked account", Alts: [][]string{{"param:hash", "pkg/vm.(*VM).GetCallingScriptHash", "pkg/util.(Uint160).Equals"}}},
+			{ID: "caller-is-account", Doc: "the calling script hash equals the checked account", Alts: [][]string{{"param#1", "pkg/vm.(*VM).GetCallingScriptHash", "pkg/util.(Uint160).Equals"}}},
 			{ID: "caller-exists", Doc: "the calling script hash is not the zero hash (entry scripts, verification scripts and verify methods have no caller)", Alts: [][]string{{"type:pkg/util.Uint160", "pkg/vm.(*VM).GetCallingScriptHash"}}},
 		},
 	}})
@@ -351,7 +355,7 @@ func ruleCondContext(c *Ctx) {
 	fnCS := [3]string{rt, "", "checkScope"}
 	runGates(c, []GateSpec{
 		{ID: "checkScope.allow", Fn: fnCS, Target: "allow-return",
-			Guards: []Guard{{ID: "account-match", Doc: "only a signer whose account is the checked hash can witness", Alts: [][]string{{"pkg/core/transaction#Account", "param:hash"}}}}},
+			Guards: []Guard{{ID: "account-match", Doc: "only a signer whose account is the checked hash can witness", Alts: [][]string{{"pkg/core/transaction#Account", "param#1"}}}}},
 		{ID: "checkScope.called-by-entry", Fn: fnCS, IfMentions: "pkg/core/transaction.CalledByEntry", Target: "return-true",
 			Guards: []Guard{{ID: "entry-relation", Doc: "CalledByEntry allows only the entry script or a contract it calls directly", Alts: [][]string{{"pkg/vm.(*Context).IsCalledByEntry"}}}}},
 		{ID: "checkScope.custom-contracts", Fn: fnCS, IfMentions: "pkg/core/transaction.CustomContracts", Target: "return-true",
@@ -361,7 +365,7 @@ func ruleCondContext(c *Ctx) {
 		{ID: "checkScope.rules", Fn: fnCS, IfMentions: "pkg/core/transaction.Rules", Target: "allow-return",
 			Guards: []Guard{{ID: "first-matching-rule", Doc: "a rule decides only when its condition matched", Alts: [][]string{{"pkg/core/transaction.(WitnessCondition).Match"}}}}},
 		{ID: "CheckHashedWitness.shortcut", Fn: [3]string{rt, "", "CheckHashedWitness"}, Target: "return-true",
-			Guards: []Guard{{ID: "is-caller", Doc: "the shortcut applies only when the hash is the calling contract's", Alts: [][]string{{"pkg/vm.(*VM).GetCallingScriptHash", "param:hash", "pkg/util.(Uint160).Equals"}}}}},
+			Guards: []Guard{{ID: "is-caller", Doc: "the shortcut applies only when the hash is the calling contract's", Alts: [][]string{{"pkg/vm.(*VM).GetCallingScriptHash", "param#1", "pkg/util.(Uint160).Equals"}}}}},
 		{ID: "getContractGroups", Fn: [3]string{rt, "", "getContractGroups"}, Target: "call:pkg/core/interop.(*Context).GetContract",
 			Guards: []Guard{{ID: "read-states", Doc: "group lookup needs the ReadStates flag", Alts: [][]string{{"pkg/smartcontract/callflag.ReadStates", symHas}}}}},
 	})
@@ -392,8 +396,8 @@ func ruleCondContext(c *Ctx) {
 	// entry relation: a context's calling context is linked whenever there is a parent context
 	runGates(c, []GateSpec{{
 		ID: "vm.load.calling-context", Fn: [3]string{"pkg/vm", "VM", "loadScriptWithCallingHash"}, Target: "write:pkg/vm#istack",
-		Assume:   &Assume{Conds: []AssumeCond{{Mentions: []string{"local:parent"}, Val: true}}},
-		MustNode: [][]string{{"pkg/vm#callingContext", "local:parent"}},
+		Assume:   &Assume{Conds: []AssumeCond{{Mentions: []string{"local<-pkg/vm.(*VM).Context"}, Val: true}}},
+		MustNode: [][]string{{"pkg/vm#callingContext", "local<-pkg/vm.(*VM).Context"}},
 	}})
 	// the rule's verdict is Action == WitnessAllow
 	fd := c.P.Func(rt, "", "checkScope")
@@ -539,4 +543,36 @@ func nilOnEdge(f *FuncCFG, b *cfg.Block, o types.Object) bool {
 		b = p
 	}
 	return false
+}
+
+// depthParamIndex: the remaining-nesting-depth parameter of a witness-condition decoder, recognised by shape, not by
+// name: the only parameter of type int of a function that produces conditions (a WitnessCondition or a slice of
+// them among its results) or decodes one (method of a type implementing WitnessCondition). -1 if there is none.
+func depthParamIndex(sig *types.Signature) int {
+	idx, n := -1, 0
+	for i := 0; i < sig.Params().Len(); i++ {
+		if b, ok := sig.Params().At(i).Type().Underlying().(*types.Basic); ok && b.Kind() == types.Int {
+			idx = i
+			n++
+		}
+	}
+	if n != 1 {
+		return -1
+	}
+	mentionsCond := func(t types.Type) bool {
+		s := t.String()
+		return strings.Contains(s, "transaction.WitnessCondition")
+	}
+	for i := 0; i < sig.Results().Len(); i++ {
+		if mentionsCond(sig.Results().At(i).Type()) {
+			return idx
+		}
+	}
+	if r := sig.Recv(); r != nil {
+		ms := types.NewMethodSet(r.Type())
+		if ms.Lookup(r.Pkg(), "DecodeBinarySpecific") != nil && ms.Lookup(r.Pkg(), "Match") != nil {
+			return idx
+		}
+	}
+	return -1
 }
